@@ -541,6 +541,8 @@ package url
 //@            && result1 == nil && !specEndsInANumber(hostASCII(p, input))) ==> result0 == hostASCII(p, input)   [C09 decode-then-toascii-then-ipv4-test]
 //@   ensures (!isNotSpecial && p.opts.preParseHostFunc == nil && p.opts.postParseHostFunc == nil && !p.opts.laxHostParsing && input != "" && input[0] != '['
 //@            && result1 == nil && !specEndsInANumber(hostASCII(p, input))) ==> (forall k int :: 0 <= k && k < len(result0) ==> !specForbiddenDomain(result0[k]))   [C09 no-forbidden-domain-code-point]
+//@   ensures (!isNotSpecial && p.opts.preParseHostFunc == nil && p.opts.postParseHostFunc == nil && !p.opts.laxHostParsing && p.opts.encodingOverride == nil && input != ""
+//@            && input[0] != '[' && result1 == nil && !specEndsInANumber(specHostASCII(input))) ==> result0 == specHostASCII(input)   [C09 domain-host-as-a-function-of-the-text]
 //@   ensures (isNotSpecial && p.opts.preParseHostFunc == nil && input != "" && input[0] != '[') ==> !u.isIPv4 || old(u.isIPv4)   [C07 non-special-hosts-never-reinterpreted]
 //@   loop 1 modifies u.validationErrors, u.validationErrors[..]
 //@   loop 1 invariant arr(u.validationErrors) == old(arr(u.validationErrors)) || fresh(u.validationErrors)
@@ -616,6 +618,12 @@ package url
 //@           *url.query == encWith(querySet(url), old(cleaned(urlOrRef)))   [C05 search-value]
 //@   ensures url != nil ==> url.searchParams == old(url.searchParams)   [C12]
 //@   ensures url != nil ==> url.parser == p
+//@   ensures (url != nil && result1 == nil) ==> url.inputUrl == old(cleaned(urlOrRef))   [C05 setter-input-cleaning]
+//@   ensures (url != nil && (stateOverride == StateHost || stateOverride == StateHostname) && old(url.scheme) != "file" && result1 == nil && !p.opts.acceptInvalidCodepoints && (hostEnd(url) >= inN(url) || (inC(url)[hostEnd(url)] != 0x5B && (inC(url)[hostEnd(url)] != 0x3A || stateOverride == StateHost))) && domainCaseS(url, hostText(url))) ==>
+//@           (url.host != nil && *url.host == specHostASCII(hostText(url)))   [C05,C09 host-setter-value]
+//@   ensures (url != nil && (stateOverride == StateHost || stateOverride == StateHostname) && old(url.scheme) == "file" && result1 == nil && fileHostText(url) == "") ==> (url.host != nil && *url.host == "")   [C05 host-setter-value]
+//@   ensures (url != nil && (stateOverride == StateHost || stateOverride == StateHostname) && old(url.scheme) == "file" && result1 == nil && fileHostText(url) != "" && domainCaseS(url, fileHostText(url))) ==>
+//@           (url.host != nil && *url.host == (specHostASCII(fileHostText(url)) == "localhost" ? "" : specHostASCII(fileHostText(url))))   [C05,C09 host-setter-file-localhost]
 //@   ensures (url != nil && stateOverride == StateSchemeStart) ==> special(url, url.scheme) == old(special(url, url.scheme))   [C05,C07,C09 scheme-setter-keeps-specialness]
 //@   ensures (url != nil && stateOverride == StateSchemeStart && url.scheme != old(url.scheme)) ==>
 //@           (url.inputUrl == old(cleaned(urlOrRef)) && hasSch(url) && url.scheme == specLowerRunes(inC(url), schEnd(url)))   [C05 protocol-value]
@@ -840,6 +848,14 @@ package url
 //@            || state == StateHost || state == StateHostname || state == StatePort || state == StatePathStart)) ==> len(url.path.p) == 0
 //@   loop 1 step (prev(state) == StatePath && (prev(input.pointer) + 1 >= input.length || r == 0x2F || (special(url, url.scheme) && r == 0x5C) || (!stateOverridden && (r == 0x3F || r == 0x23))) && p.opts.collapseConsecutiveSlashes && special(url, url.scheme)) ==> (forall k int :: (0 <= k && k < len(url.path.p) - 1) ==> ((k < prev(len(url.path.p)) - 1 && url.path.p[k] == prev(url.path.p[k])) || url.path.p[k] != ""))   [C16 path-state-collapse-bridge]
 //@   loop 1 step (prev(state) == StatePath && !(prev(input.pointer) + 1 >= input.length || r == 0x2F || (special(url, url.scheme) && r == 0x5C) || (!stateOverridden && (r == 0x3F || r == 0x23)))) ==> (len(url.path.p) == prev(len(url.path.p)) && url.path.opaque == prev(url.path.opaque) && (forall k int :: (0 <= k && k < prev(len(url.path.p))) ==> url.path.p[k] == prev(url.path.p[k])))   [C01,C16 path-state-code-point-keeps-path]
+//@   loop 1 invariant ((stateOverride == StateHost || stateOverride == StateHostname) && (state == StateHost || state == StateHostname) && !p.opts.acceptInvalidCodepoints) ==> bufv(buffer) == specRuneStr(inC(url), input.pointer + 1)
+//@   loop 1 invariant ((stateOverride == StateHost || stateOverride == StateHostname) && (state == StateHost || state == StateHostname)) ==> (specHostPlain(inC(url), input.pointer + 1, special(url, url.scheme)) && !bracketFlag)
+//@   loop 1 invariant ((stateOverride == StateHost || stateOverride == StateHostname) && state == StateFileHost) ==> (bufv(buffer) == specRuneStr(inC(url), input.pointer + 1) && specFileHostPlain(inC(url), input.pointer + 1)
+//@            && url.scheme == "file")
+//@   loop 1 invariant ((stateOverride == StateHost || stateOverride == StateHostname) && (state == StateHost || state == StateHostname)) ==> url.scheme == old(url.scheme)
+//@   loop 1 invariant ((stateOverride == StateHost || stateOverride == StateHostname) && state == StateFileHost) ==> old(url.scheme) == "file"
+//@   loop 1 invariant ((stateOverride == StateHost || stateOverride == StateHostname) && state == StatePort) ==> (old(url.scheme) != "file" && stateOverride == StateHost && hostEnd(url) < inN(url) && inC(url)[hostEnd(url)] == 0x3A)
+//@   loop 1 invariant ((stateOverride == StateHost || stateOverride == StateHostname) && state == StatePort && !p.opts.acceptInvalidCodepoints && domainCaseS(url, hostText(url))) ==> (url.host != nil && *url.host == specHostASCII(hostText(url)))
 //@   loop 1 invariant (stateOverride == StatePathStart && state == StatePathStart) ==> len(url.path.p) == 0
 //@   loop 1 invariant (old(url) == nil ? (old(baseUrl == nil || collapsedOK(baseUrl)) && (baseUrl == nil || shapeP(baseUrl))) : old(collapsedOK(url))) ==> collapsedOK(url)
 //@   loop 1 decreases specRank(state), input.length - input.pointer
@@ -1270,6 +1286,7 @@ package url
 
 //@ func (*parser).ToASCII
 //@   requires p != nil
+//@   ensures p.opts.encodingOverride == nil ==> result0 == (src == "" ? "" : specIDNA(src))   [C09 toascii-is-the-idna-function]
 
 //@ func (*parser).stringToUnicode
 //@   requires p != nil && p.opts.encodingOverride != nil
